@@ -48,10 +48,9 @@ def c02(ctx):
     ctx.run_vh("pickembed", ["-in", pe, "-lastop", "spick", "-max", 0, "-maxslow", 0])
     # exact: kyber's own mod.Int over Z_m, m = 2..17, every value predicted by TLC (spec/TinyField.tla)
     import props_xof
-    props_xof.tiny_scalar(ctx)
     # and the same exact tables on the constantTime build (bigmod engine: odd moduli only)
     ct_tiny = ctx.build(tags="verif,constantTime", pkg="./cmd/vh-tiny")
-    props_xof.tiny_scalar(ctx, moduli_filter="odd", binary=ct_tiny)
+    props_xof.tiny_scalar(ctx, also=[(ct_tiny, "odd")])
     return ctx.finish("model_checking",
                       "behaviour = scalar program (all ops x all receiver/operand aliasings, exhaustive to length 2, simulated to length 9) x scalar implementation x binding of u; distinct = (implementation, binding, behaviour, step); every step compares the receiver's encoding with eval(abstract value, u) mod q computed with math/big, all other registers byte-identical, Equal partition",
                       ASSUME_LIFT, exhaustive=False)
